@@ -77,6 +77,11 @@ const (
 	// value positions only: a whole number of seconds the caller holds as time.Time (the encoder writes
 	// the epoch seconds as a plain integer)
 	SpTime uint8 = 22
+	// value positions only: Go types from outside the documented set. A number held as a named integer type (emitted
+	// as that integer); on TEXT values: the text held as encoding/json.Number or as a named string type (emitted as text)
+	SpNamedInt    uint8 = 23
+	SpJSONNumber  uint8 = 30
+	SpNamedString uint8 = 31
 )
 
 // Val is the harness' abstract CBOR value. Maps keep an explicit entry order.
